@@ -1,5 +1,82 @@
+import OpusModel.SilkSyms
 import Driver.Util
-/- Suite stub — replaced by the owner of this suite. -/
+/- Suite `silksyms` (property C03): the SILK symbol layer as driven by opus_decode.
+
+   silksyms packet <Fs> <channels> <decode_fec> <prev_mode_celt> x<packet>
+     → `OK ret=<samples> <frame record>… F<final>` or an error name.
+   A frame record (one per SILK/hybrid frame with more than one byte) is
+     silk@<offset> fs=<internalSampleRate> ms=<payloadSize_ms> nch=<nChannelsInternal> lost=<lostFlag>
+     followed by tokens in call order:
+       H<ch>:<VAD_flags>/<LBRR_flag>/<LBRR_flags>         header flags of a channel
+       P<pred0>,<pred1>   M<mid_only>                       stereo predictor, mid-only flag
+       X<ch>,<FrameIndex>,<decode_LBRR>,<condCoding>:…      silk_decode_indices: arguments and indices
+       Q<signalType>,<quantOffsetType>,<frame_length>:…     silk_decode_pulses: arguments and pulses[]
+       D<rng>,<tell>                                        state after a silk_Decode call
+       E<offset>,<bytes>                                    redundancy frame handed to CELT
+       C<len>,<storage>,<rng>,<tell>                        state at entry of the main CELT decode (hybrid)
+   silksyms frame <mode> <bandwidth> <nch> <ms10> <fec> x<frame>   one Opus frame, same record. -/
 namespace Driver.SuiteSilkSyms
-def handle (_ : List String) : String := "bad-op"
+open Opus Opus.SilkSyms Driver
+
+def dots (l : List Nat) : String := ".".intercalate (l.map toString)
+def dotsI (l : List Int) : String := ".".intercalate (l.map toString)
+def digits (l : List Nat) : String := String.join (l.map toString)
+
+def ixStr (ix : Indices) : String :=
+  let base := s!"s{ix.signalType},q{ix.quantOffsetType},g{dots ix.gains},n{ix.nlsf0}.{dotsI ix.nlsfRes},i{ix.interp}"
+  let v := if ix.signalType = 2 then
+      s!",l{ix.lagIndex},c{ix.contourIndex},p{ix.perIndex},t{dots ix.ltp},k{ix.ltpScale}" else ""
+  base ++ v ++ s!",d{ix.seed}"
+
+def evStr : Ev → String
+  | .flags ch vad lf lfs => s!"H{ch}:{digits vad}/{lf}/{digits lfs}"
+  | .pred p => s!"P{p.pred0},{p.pred1}"
+  | .midOnly v => s!"M{v}"
+  | .indices ch fi lb cc _ _ _ _ ix => s!"X{ch},{fi},{lb},{cc}:{ixStr ix}"
+  | .pulses sig qoff fl p => s!"Q{sig},{qoff},{fl}:{dotsI p.pulses}"
+  | .ret rng tl => s!"D{rng},{tl}"
+
+def frameStr (mode : Nat) (fec : Bool) (off : Nat) (o : FrameOut) : String :=
+  let head := s!"silk@{off} fs={o.internalRate} ms={o.payloadMs} nch={o.nCh} lost={o.lostFlag}"
+  let evs := o.evs.map evStr
+  let e := if o.redundancy ≠ 0 then [s!"E{(off : Int) + o.len},{o.redundancyBytes}"] else []
+  let c := if mode = 1001 ∧ ¬ fec then [s!"C{o.len},{o.dec.storage},{o.dec.rng},{RangeCoder.tell o.dec}"] else []
+  let tail := if o.celtToSilk ≠ 0 then e ++ c else c ++ e
+  " ".intercalate (head :: evs ++ tail)
+
+def finalStr (mode : Nat) (fec : Bool) : Option FrameRes → String
+  | none => "F0"
+  | some .plc => "F0"
+  | some .celt => "F-"
+  | some (.silk _ o) =>
+    if mode = 1001 ∧ ¬ fec then "F-"
+    else if o.len ≤ 1 then "F0" else s!"F{o.dec.rng}"
+
+def packetStr (fs : Nat) (fec : Bool) (pkt : Bytes) (r : Option (List FrameRes)) : String :=
+  let toc := pkt.headD 0
+  let mode := Framing.getMode toc
+  let spf := Framing.samplesPerFrame toc fs
+  match r with
+  | none => s!"OK ret={spf} F0"
+  | some l =>
+    let recs := l.filterMap fun
+      | .silk off o => some (frameStr mode fec off o)
+      | _ => none
+    let ret := if fec then spf else l.length * spf
+    " ".intercalate ([s!"OK ret={ret}"] ++ recs ++ [finalStr mode fec l.getLast?])
+
+def handle : List String → String
+  | ["packet", fs, _ch, fec, pc, hex] =>
+    match parseNat fs, parseNat fec, parseNat pc, parseHex hex with
+    | some fs, some fec, some pc, some pkt =>
+      resStr (packetStr fs (fec != 0) pkt) (decodePacket fs (fec != 0) (pc != 0) {} pkt)
+    | _, _, _, _ => "bad-op"
+  | ["frame", mode, bw, nch, ms10, fec, hex] =>
+    match parseNat mode, parseNat bw, parseNat nch, parseNat ms10, parseNat fec, parseHex hex with
+    | some mode, some bw, some nch, some ms10, some fec, some fr =>
+      resStr (fun o => frameStr mode (fec != 0) 0 o ++ " " ++ finalStr mode (fec != 0) (some (.silk 0 o)))
+        (decodeOpusFrame mode bw nch ms10 (fec != 0) {} fr)
+    | _, _, _, _, _, _ => "bad-op"
+  | _ => "bad-op"
+
 end Driver.SuiteSilkSyms
